@@ -243,7 +243,7 @@ def engine_scenarios(tier, seed):
     # watch mode: setting up the watcher of a later root fails (a 300-character path component): zinoma must exit with an
     # error and leave nothing behind of the roots it had already started
     sc.append({"type": "watchfail", "name": "watch_root_setup_failure",
-               "cfg": dict(gen_configs.finish({"n": 3, "kind": ["s", "b", "b"], "deps": [[], [], []], "roots": [1, 2, 3], "watch": True}, 990),
+               "cfg": dict(gen_configs.finish({"n": 4, "kind": ["s", "b", "b", "b"], "deps": [[], [], [], []], "roots": [1, 2, 3, 4], "watch": True}, 990),
                            id="bbwf"), "bodies": {}, "actions": []})
     return sc
 
@@ -255,6 +255,10 @@ WATCHFAIL_YAML = """targets:
     build: exec sleep 600
   t3:
     input:
+      - paths: [bigtree]
+    build: 'true'
+  t4:
+    input:
       - paths: ['%s/x']
     build: 'true'
 """
@@ -265,10 +269,15 @@ def run_watchfail_scenario(s):
     shutil.rmtree(d, ignore_errors=True)
     os.makedirs(d)
     open(os.path.join(d, "zinoma.yml"), "w").write(WATCHFAIL_YAML % ("n" * 300))
+    # setting up t3's recursive watch takes a while: the roots requested before it have started their shells by the time
+    # the set-up of t4 fails
+    for i in range(40):
+        for j in range(40):
+            os.makedirs(os.path.join(d, "bigtree", "d%d" % i, "e%d" % j))
     trace = d + ".ndjson"
     if os.path.exists(trace):
         os.unlink(trace)
-    r = run_zinoma(d, ["--watch", "t1", "t2", "t3"], trace, timeout=15)
+    r = run_zinoma(d, ["--watch", "t1", "t2", "t3", "t4"], trace, timeout=25)
     lines = [l for l in open(trace).read().splitlines() if l.strip()] if os.path.exists(trace) else []
     # only the process-level facts are folded (the engine never reached its loop)
     raw = [json.dumps({"ev": "cfg", "t": s["cfg"]["id"], "cfg": dict(s["cfg"], scale=True)})]
